@@ -35,6 +35,12 @@ def consuming(lit):
             "notAfter": [], "lit": [list(x) for x in lit]}
 
 
+def mixed(cut_after, cut_before):
+    """One pattern, both styles as alternatives: '([KR])|(?=[D])' (disjoint letter classes)."""
+    return {"name": "", "style": "mixed", "before": [], "beforeNot": [], "after": list(cut_before), "afterNot": [],
+            "notAfter": [], "lit": [list(cut_after)]}
+
+
 def render(rule) -> str:
     """Rule record -> the regex text handed to peptacular (input rendering, the inverse of nothing in the code)."""
     if rule["name"]:
@@ -58,6 +64,8 @@ def render(rule) -> str:
             parts.append(cls[0] if len(cls) == 1 else "[%s]" % "".join(cls))
         body = "".join(parts)
         return "(%s)" % body if len(rule["lit"]) == 1 else body
+    if rule["style"] == "mixed":
+        return "([%s])|(?=[%s])" % ("".join(rule["lit"][0]), "".join(rule["after"]))
     raise ValueError(rule)
 
 
@@ -65,6 +73,7 @@ USER_RULES = [
     zero(before="KR"), zero(after="D"), zero(before="KR", afterNot="P"), zero(before="KR", notAfter="P"),
     zero(beforeNot="P", after="K"), zero(before="E", after="A"), zero(notAfter="KR", before="DE"),
     consuming(["KR"]), consuming(["P", "P"]), consuming(["K", "DE"]), consuming(["D"]),
+    mixed("KR", "D"), mixed("E", "KA"),
 ]
 
 
